@@ -135,7 +135,8 @@ def run_case(case, R):
             # every upper end is +inf: the volume is +inf or finite, never negative, never undefined (F(inf, ..., inf) = sum of u_i for
             # independent components, eta * inf for Clayton)
             R.hit("volume_checks_all_infinite_upper_corner")
-            if not (vol >= 0.0):
+            # (when every corner value is finite -- eta = 0 -- the corner sum carries its own rounding)
+            if not (vol >= (-1e-12 * scale if math.isfinite(scale) else 0.0)):
                 R.violation(f"{kind}-{d}d-negative-volume-all-infinite-upper-corner", f"{label}: the rectangle ({a.tolist()}, {b.tolist()}] has volume {vol!r} "
                             f"(F at the all-infinite corner = {float(F(np.full(d, math.inf)))!r})", wit)
                 break
